@@ -163,7 +163,10 @@ def _one(args: Tuple[str, int, int]) -> Case:
         kw = dict(max_blocks=3, max_stmts=10, max_depth=3)
     elif r == 2:
         kw = dict(max_blocks=2, max_stmts=4, max_depth=7)       # deep
-    prog = P.gen_program(rng, **kw)
+    if i % 30 == 3:
+        prog = P.gen_positional_fold_program(rng)   # folds at varying statement positions across blocks (seed C05-m26)
+    else:
+        prog = P.gen_program(rng, **kw)
     texts = P.spell(prog, rng)
     return make_case(prog, texts, which)
 
